@@ -1860,6 +1860,30 @@ Section WithInput.
     apply IH. intros y Hy. apply H. now right.
   Qed.
 
+  Lemma sdiff_nil a : sdiff a [] = a.
+  Proof. unfold sdiff. induction a as [|x a IH]; [reflexivity|]. cbn [filter mem_nat negb]. now rewrite IH. Qed.
+
+  (* inside the class no marked ancilla is ever blocked: the gates computing an
+     ancilla that is not free are controlled by qubits that are not free *)
+  Lemma blocked_nil st : Inv st -> blocked_of st = [].
+  Proof.
+    intros I0. unfold blocked_of.
+    assert (H : forall l, (forall g, In g l -> In g (st_comp st)) ->
+      fold_left (fun b g => if mem_nat (tgt g) (st_marked st) && existsb (fun c => mem_nat c (st_free st)) (ctrls g)
+                            then sadd (tgt g) b else b) l [] = []).
+    { induction l as [|g l IH]; intros Hl; [reflexivity|]. cbn [fold_left].
+      destruct (mem_nat (tgt g) (st_marked st)) eqn:Em; cbn [andb]; [|apply IH; intros g0 Hg0; apply Hl; now right].
+      apply mem_nat_in in Em.
+      assert (Hg : In g (st_gates st)).
+      { pose proof (Hl g (or_introl eq_refl)) as Hc. rewrite (i_compf st I0) in Hc. now apply filter_In in Hc. }
+      assert (Ex : existsb (fun c => mem_nat c (st_free st)) (ctrls g) = false).
+      { destruct (existsb (fun c => mem_nat c (st_free st)) (ctrls g)) eqn:Ee; [|reflexivity]. exfalso.
+        apply existsb_exists in Ee as (c & Hc & Hf). apply mem_nat_in in Hf.
+        exact (i_alive st I0 g Hg (proj1 (i_marked st I0 _ Em)) (i_free_marked st I0 _ Em) c Hc Hf). }
+      rewrite Ex. apply IH. intros g0 Hg0. apply Hl. now right. }
+    apply H. auto.
+  Qed.
+
   (* the inline uncompute: every marked ancilla is back to zero *)
   Lemma uncompute_spec st unc st4 : Inv st -> uncompute st = Ok (unc, st4) ->
     (forall q, In q (st_anc st) -> In q (st_free st) \/ In q (st_marked st)) ->
@@ -1868,7 +1892,8 @@ Section WithInput.
     (forall q, ~ In q (st_marked st) -> V st' q = V st q) /\
     st_anc st' = st_anc st /\ (forall q, In q (st_anc st') -> In q (st_free st')).
   Proof.
-    intros I0 H HB st'. unfold uncompute in H. destruct (st_marked st) as [|m0 ms] eqn:Em.
+    intros I0 H HB st'. unfold uncompute in H. rewrite (blocked_nil st I0) in H. unfold uncompute_with in H.
+    rewrite sdiff_nil in H. destruct (st_marked st) as [|m0 ms] eqn:Em.
     - injection H as <- <-. subst st'. split; [|split; [exact Em|split; [reflexivity|split; [reflexivity|split; [auto|split; [reflexivity|]]]]]].
       + destruct I0. constructor; sts; auto.
         * intros e q Hin. apply cache_remove_in in Hin as [Hin _]. eauto.
